@@ -198,7 +198,8 @@ class Normalizer:
                 s.body = pre + s.body
             # hoist calls of local function variables out of expressions
             hoist = set(self.t.get('hoist', ()))
-            if hoist and isinstance(s, ast.Expr) and isinstance(s.value, ast.Call):
+            if hoist and isinstance(s, (ast.Expr, ast.Assign)) and not (
+                    isinstance(s.value, ast.Call) and isinstance(s.value.func, ast.Name) and s.value.func.id in hoist):
                 for n in ast.walk(s.value):
                     for field, val in ast.iter_fields(n):
                         vals = val if isinstance(val, list) else [val]
@@ -344,6 +345,10 @@ class TrLife(D.TrProg):
                     if ' st ' in res[0] + ' ':
                         self.reads_state = True
                     return res
+        if isinstance(f, ast.Name) and f.id == 'len' and len(node.args) == 1 and not node.keywords:
+            t, ty = self.expr(node.args[0], env)
+            if ty in ('blkset', 'blklist', 'bttlist'):
+                return (f'(({t}).length : Int)', 'int')
         # isinstance on a state path
         if isinstance(f, ast.Name) and f.id == 'isinstance' and len(node.args) == 2:
             key = (ast.unparse(node.args[0]), ast.unparse(node.args[1]))
